@@ -101,6 +101,11 @@ CHECKS = {
    text="9 programs covering all statement kinds; every layout that differs from the canonical printing in exactly one position (separator inside a tag x {space, tab, newline, CR LF, two spaces, # comment, nothing next to a delimiter}; adjacent code tags x {keep, merge with newline / semicolon / space}; comment tag after a tag end): 1.5k layouts exhaustively, plus 300 (quick) / 6000 (thorough) seeded random layouts differing in every position. Real output of canonical and laid-out source must both equal the model's.",
    note="The program set is fixed (9 programs); layouts never remove a separator between two tokens (the property's exception for - and . is therefore not exercised).",
    design="§6 C18"),
+ "C15": dict(
+   technique="TLC explicit-state enumeration of multi-line templates with one failing tag (GenLines.tla) with the expected line computed declaratively in the model, ErrTheorem (reference semantics reports an error) and ShiftTheorem as invariants; every case replayed into real plush.Render, unshifted and shifted by k newlines",
+   text="Exhaustive within the bound: up to 1 (quick) / 3 (thorough) of 12 line-occupying items before one failing tag of 16 kinds (10 run-time faults, 6 syntax errors) in 11 placements: 2.2k / 320k templates. Real code: Render fails, the error starts with 'line N:' with N = 1 + newlines before the failing tag (the outer calling tag for a fault inside a partial), failing helpers stay wrapped, and for k in {1, 2, 7, 100} the shifted template yields the identical error with every own line number increased by exactly k.",
+   note="The failing tag itself is on one line, so the statement's 'first line of the tag' and 'line of the failing token' coincide; inputs ending inside an unterminated string are not generated.",
+   design="§6 C15"),
 }
 
 NOT_YET = "check not built yet in this session (work in progress, see DESIGN.md §8)"
